@@ -25,7 +25,7 @@ inductive DsClass | base | d2 | d3 | d4 | d4stem
   deriving DecidableEq, Repr, Inhabited
 
 /-- dtype kind of the array -/
-inductive Kind | int | float | complex
+inductive Kind | bool | int | float | complex
   deriving DecidableEq, Repr, Inhabited
 
 /-- the dimensionality a subclass's `from_array` enforces (`ensure_valid_array(array, ndim=k)`) -/
@@ -325,6 +325,12 @@ def binCalib (o s : List Rat) (d : List (Int × Int)) : List Rat × List Rat :=
     let m := binMeta (acc.1.getD ax 0) (acc.2.getD ax 0) p.2.toNat
     (acc.1.set ax m.1, acc.2.set ax m.2)) (o, s)
 
+/-- dtype kind of a binned array: `np.sum` turns booleans into integers and keeps the other
+kinds; `/ block_volume` turns booleans and integers into floats -/
+def binKind (k : Kind) (mean : Bool) : Kind :=
+  if mean then (if k == .int || k == .bool then Kind.float else k)
+  else (if k == .bool then Kind.int else k)
+
 /-- `Dataset.bin` -/
 def bin (d : Ds) (f : FacArg) (axes : AxesArg) (mean badReducer inplace : Bool) :
     Except Err (Ds × Option Ds) :=
@@ -342,7 +348,7 @@ def bin (d : Ds) (f : FacArg) (axes : AxesArg) (mean badReducer inplace : Bool) 
       let shape' := binShape d.shape facs
       let data' := binData d facs mean vol
       -- np.sum keeps the kind; `/ block_volume` turns integers into floats
-      let kind' := if mean && d.kind == .int then Kind.float else d.kind
+      let kind' := binKind d.kind mean
       let o' := (binCalib d.origin d.sampling dict).1
       let s' := (binCalib d.origin d.sampling dict).2
       if inplace then
@@ -466,7 +472,7 @@ def dpReduce (d : Ds) (kind : DpKind) : Except Err Ds :=
   -- mean / median of integers are floats; max keeps the dtype
   let kind' := match kind with
     | .max => d.kind
-    | _ => if d.kind == .int then Kind.float else d.kind
+    | _ => if d.kind == .int || d.kind == .bool then Kind.float else d.kind
   fromArray .d2 (d.shape.drop 2) data' kind' (some (.list (last2 d.origin))) (some (.list (last2 d.sampling)))
     (some (.list (last2 d.units)))
 
@@ -482,7 +488,8 @@ def virtualImageData (shape : List Nat) (dat mask : List Val) : List Val :=
 def virtualImage (d : Ds) (maskShape : List Nat) (mask : List Val) : Except Err Ds :=
   if d.cls ≠ .d4stem then .error .attribute else
   if maskShape ≠ last2 d.shape then .error .value else   -- "Mask shape … does not match diffraction pattern shape"
-  fromArray .d2 (d.shape.take 2) (d.data.map fun dat => virtualImageData d.shape dat mask) d.kind
+  fromArray .d2 (d.shape.take 2) (d.data.map fun dat => virtualImageData d.shape dat mask)
+    (if d.kind == .bool then Kind.int else d.kind)      -- bool * uint8 mask is an integer array
     (some (.list (d.origin.take 2))) (some (.list (d.sampling.take 2))) (some (.list (d.units.take 2)))
 
 /-- `Dataset3d.to_dataset2d()[k]`: the list `[self[i] for i in range(self.shape[0])]` -/
